@@ -2,6 +2,8 @@ package bmc
 
 import (
 	"context"
+
+	"github.com/gebn/bmc/pkg/ipmi"
 )
 
 // C05 (whole stack, session-less): the reply to a session-less command is an arbitrary
@@ -28,6 +30,70 @@ func VerifC05_SessionlessReply() {
 	_ = code
 	if err == nil {
 		vReached("accepted")
+	} else {
+		vReached("error")
+	}
+	vReached("end")
+}
+
+// C05 (whole stack, in-session): the reply to an in-session command is an arbitrary
+// byte string (mode 0) or a datagram with a valid AuthCode around an arbitrary plaintext
+// crafted by a party that knows the session keys (mode 1).
+func VerifC05_SessionReply() {
+	auth, integ := vSuite()
+	vs := vNewSession(auth, integ)
+	vAssume(vs.sess.AuthenticatedSequenceNumbers.Inbound != 0xffffffff)
+	ctx, cancel := context.WithCancel(context.Background())
+	crafted := vBool()
+	k := 0
+	if crafted {
+		k = vChoice(vNumIPMICommands)
+	}
+	cmd := vCommand(k)
+	vs.ft.reply = func(attempt int, req []byte) ([]byte, error) {
+		cancel()
+		if !crafted {
+			lens := []int{0, 4, 16, 17, 30}
+			n := lens[vChoice(len(lens))]
+			return vBytes(n), nil
+		}
+		blocks := 1 + vChoice(vParam("maxblocks", 2))
+		return refSessionPacketRaw(vs.sess.LocalID, vU32(), integ, vs.k1, vs.k2, vBytes(16), vBytes(16*blocks)), nil
+	}
+	_, err := vs.sess.SendCommand(ctx, cmd)
+	if err == nil {
+		vReached("?accepted")
+	} else {
+		vReached("error")
+	}
+	vReached("end")
+}
+
+// C05 (whole stack, handshake): each of the three handshake replies is an arbitrary
+// byte string (any wrapper, any payload) of a length from a list bracketing the header
+// and payload length checks.
+func VerifC05_HandshakeReply() {
+	ft := &vFakeTransport{}
+	s := vNewSessionless(ft)
+	ctx, cancel := context.WithCancel(context.Background())
+	password := vBytes(4)
+	bmc := &refBMC{password: password, sidC: vU32(), rC: vBytes(16), guid: vBytes(16), useProposal: true}
+	garbleAt := vChoice(4) // 3: no reply is garbled
+	step := 0
+	ft.reply = func(attempt int, req []byte) ([]byte, error) {
+		if step == garbleAt {
+			cancel()
+			lens := []int{0, 4, 16, 17, 24}
+			return vBytes(lens[vChoice(len(lens))]), nil
+		}
+		step++
+		return bmc.handle(req), nil
+	}
+	sess, err := s.NewV2Session(ctx, &V2SessionOpts{SessionOpts: SessionOpts{Password: password, MaxPrivilegeLevel: ipmi.PrivilegeLevelUser},
+		CipherSuites: []ipmi.CipherSuite{ipmi.CipherSuite3}})
+	if err == nil {
+		vAssert(sess != nil, "c05-session-or-error")
+		vReached("?session")
 	} else {
 		vReached("error")
 	}
